@@ -78,11 +78,10 @@ Section WalkAll.
   Variable pc : N -> bool.
   Hypothesis Hpc : forall b, okb b = true -> allc pc b = true.
 
-  Lemma abs_attr_all e L st a w st' : attr_ok3 L a = true -> tbl_all pc (strtbl st) = true ->
-    abs_attr e st a = Some (w, st') -> tbl_all pc (strtbl st') = true.
+  Lemma abs_attr_start_all e L st a start vl st1 : attr_ok3 L a = true -> tbl_all pc (strtbl st) = true ->
+    abs_attr_start e st a = Some (start, vl, st1) -> tbl_all pc (strtbl st1) = true.
   Proof.
-    intros Ha Ht. unfold abs_attr. destruct (abs_attr_start e st a) as [[[start vl] st1]|] eqn:AS; [|discriminate].
-    assert (H1 : tbl_all pc (strtbl st1) = true).
+    intros Ha Ht AS.
     { unfold abs_attr_start in AS. cbv zeta in AS.
       assert (TK : forall t p, tbl_all pc (strtbl (snd (enc_attr_token st t p))) = true)
         by (intros t p; destruct (attr_token_same_tbl st t p) as [E _]; now rewrite E).
@@ -102,6 +101,13 @@ Section WalkAll.
         + injection AS as _ _ <-; apply TK.
       - apply andb_true_iff in Ha as [Hn _].
         destruct (get_attr_from_xml _ _ _) as [[r lft]|]; [injection AS as _ _ <-; apply TK|exact (LT _ _ Hn AS)]. }
+  Qed.
+
+  Lemma abs_attr_all e L st a w st' : attr_ok3 L a = true -> tbl_all pc (strtbl st) = true ->
+    abs_attr e st a = Some (w, st') -> tbl_all pc (strtbl st') = true.
+  Proof.
+    intros Ha Ht. unfold abs_attr. destruct (abs_attr_start e st a) as [[[start vl] st1]|] eqn:AS; [|discriminate].
+    pose proof (abs_attr_start_all _ _ _ _ _ _ _ Ha Ht AS) as H1.
     destruct vl as [v|].
     - destruct (abs_value e st1 true v) as [[w0 st2]|] eqn:AV; [|discriminate]. intros E; injection E as _ <-.
       destruct (abs_value_same _ _ _ _ _ _ AV) as [S1 _]. now rewrite S1.
